@@ -76,6 +76,15 @@ def oracle(c):
             if a["d"][k] != b["d"][k]:
                 fails.append(Failure("oracle", PROP, f"{k} differs with the instruction cache enabled ({mode})", "icache:changes-result"))
                 return fails
+        # every miss adds the configured penalty to the cycle counter — and nothing else does
+        ic = a["d"].get("ic", "-")
+        b2 = c02.run_mode(head, mode, True, limit=3000, noicache=True)          # same data cache, no instruction cache
+        if ic != "-" and b2["fault"] is None and b2["done"]:
+            h_, a_, _ = ic.split("|")[0].split()
+            want = int(b2["d"]["cyc"]) + int(pen) * (int(a_) - int(h_))
+            if int(a["d"]["cyc"]) != want:
+                fails.append(Failure("oracle", PROP, f"cycle counter {a['d']['cyc']} with the instruction cache, {b2['d']['cyc']} without; {int(a_) - int(h_)} misses at penalty {pen} should give {want} ({mode})", "icache:penalty"))
+                return fails
     # (2) accounting vs the tag-only reference on the real fetch addresses; every fetch returns the right instruction
     im = implmod.Impl()
     im.run(f"sim.new {mode} 1 - {ispec}")
